@@ -161,6 +161,29 @@ def ob_velocity(ctx, name, D, a, link, update_buffers):
     ctx.eq(inv.tensor(), expv(t.v, steps=1, align_corners=a, inverse=True), "after an in-place parameter change the inverse is exp(-v) of the new field")
 
 
+def ob_expflow(ctx, D, a, steps):
+    """ExpFlow module: every way of asking for the inverse map gives exp(-v), and composing it with exp(v) is the
+    identity for affine-free constant fields (translations)."""
+    from deepali.core.flow import expv
+    from deepali.modules.flow import ExpFlow
+
+    shape = (3, 4) if D == 2 else (3, 3, 3)
+    n = D
+    for m in shape:
+        n *= m
+    ctx.witness_cells()
+    v = ctx.reals("v", [((((5 * i) % 13) - 6) or 7) / 96 + (i % 7) / 977 for i in range(n)], nice=(-0.2, 0.2)).reshape((1, D) + shape)
+    ref = expv(-v, steps=steps, align_corners=a)
+    fwd = expv(v, steps=steps, align_corners=a)
+    m = ExpFlow(steps=steps, align_corners=a)
+    ctx.eq(m(v), fwd, "ExpFlow(v) == expv(v)")
+    ctx.eq(m(v, inverse=True), ref, "ExpFlow(v, inverse=True) == expv(-v)")
+    ctx.eq(m.inverse()(v), ref, "ExpFlow.inverse()(v) == expv(-v)")
+    ctx.eq(m.inverse()(v, inverse=True), fwd, "ExpFlow.inverse()(v, inverse=True) == expv(v)")
+    ctx.eq(expv(v, steps=steps, align_corners=a, inverse=True), ref, "expv(v, inverse=True) == expv(-v)")
+    ctx.eq(ExpFlow(scale=-1, steps=steps, align_corners=a)(v), ref, "ExpFlow(scale=-1)(v) == expv(-v)")
+
+
 def obligations(tier: str, seed: int):
     obs = []
     for D in (2, 3):
@@ -194,4 +217,7 @@ def obligations(tier: str, seed: int):
         for name in ("StationaryVelocityFieldTransform", "StationaryVelocityFreeFormDeformation"):
             for link, ub in ((False, False), (False, True), (True, True)):
                 obs.append((f"velocity-{name}-D{D}-link{int(link)}-ub{int(ub)}", ob_velocity, dict(name=name, D=D, a=bool(D % 2), link=link, update_buffers=ub)))
+    for D in (2, 3):
+        for a in (True, False):
+            obs.append((f"expflow-D{D}-ac{int(a)}", ob_expflow, dict(D=D, a=a, steps=1 if D == 3 else 2)))
     return obs
